@@ -7,6 +7,8 @@ from __future__ import annotations
 
 from fractions import Fraction
 
+from vflib.ref import handrank as hr
+
 
 def contributions_from_log(state):
     """Chips each player has in the pot(s) when pushing starts, and the part
@@ -173,15 +175,40 @@ def check(state, live, hole, rake_fn=None):
             board = tuple(state.get_board_cards(b))
             W = {}
             for t, ht in enumerate(state.hand_types):
-                hands = {i: ht.from_game_or_none(
-                    [c for c in hole[i] if c], board) for i in elig}
-                known = [h for h in hands.values() if h is not None]
-                if known:
-                    best = max(known)
-                    W[t] = [i for i in elig
-                            if hands[i] is not None and hands[i] == best]
-                    if len(W[t]) > 1:
-                        ties += 1
+                # strength from the independent evaluator of C04/C05 (the
+                # engine's own evaluation is cross-checked, not trusted)
+                mine = {i: [c for c in hole[i] if c] for i in elig}
+                ref = {i: hr.best_strength(ht.__name__, mine[i], board)
+                       if ht.__name__ in hr.CLASSES else None for i in elig}
+                if ht.__name__ in hr.CLASSES:
+                    known = [x for x in ref.values() if x is not None]
+                    if known:
+                        best = max(known)
+                        W[t] = [i for i in elig if ref[i] == best]
+                    try:
+                        hands = {i: ht.from_game_or_none(mine[i], board)
+                                 for i in elig}
+                        ek = [h for h in hands.values() if h is not None]
+                        ew = sorted(i for i in elig if ek and hands[i]
+                                    is not None and hands[i] == max(ek))
+                    except Exception as exc:   # noqa: BLE001
+                        ew = f'{type(exc).__name__}: {exc}'
+                    if ew != sorted(W.get(t, [])):
+                        v.append(
+                            f'pot {p} board {b} type {t}: the engine\'s '
+                            f'evaluator ranks {ew} best, the reference '
+                            f'evaluator {sorted(W.get(t, []))} (cards '
+                            f'{mine}, board {board})')
+                else:
+                    hands = {i: ht.from_game_or_none(mine[i], board)
+                             for i in elig}
+                    known = [h for h in hands.values() if h is not None]
+                    if known:
+                        best = max(known)
+                        W[t] = [i for i in elig if hands[i] is not None
+                                and hands[i] == best]
+                if t in W and len(W[t]) > 1:
+                    ties += 1
             got_b = [sum(op.amounts[i] for op in bops) for i in range(n)]
             if not W:
                 if S:
@@ -223,19 +250,20 @@ def check(state, live, hole, rake_fn=None):
                                      f'{W[t]})')
     facts['ties'] = ties
     _check_payoffs(state, contrib, pushes, v)
-    # nobody wins from an opponent more than he himself put in
-    net = list(contrib)
-    dead = [0] * n
-    if not state.ante_trimming_status:
-        for i in range(n):
-            net[i] -= antes[i]
-            dead[i] = antes[i]
+    # nobody wins from an opponent more than he himself put in: a player can
+    # collect at most the pots he is eligible for, minus his own chips. With
+    # every layer owned by somebody this is the classic
+    # sum_j min(c_j, c_i); a layer whose claimants have all mucked or been
+    # killed belongs to the pot below it (DESIGN section 3, F10), and the
+    # bound follows the model pots in that case too.
+    rk = [rake_fn(a, state)[1] for a, _ in pots]
     for i in range(n):
-        bound = sum(min(net[j], net[i]) + dead[j]
-                    for j in range(n) if j != i)
+        bound = sum(u for u, (a, elig) in zip(rk, pots) if i in elig) \
+            - contrib[i]
         if _lt(bound, state.payoffs[i]):
-            v.append(f'player {i} won {state.payoffs[i]} > what the others '
-                     f'could lose to him {bound} (contributions {contrib})')
+            v.append(f'player {i} won {state.payoffs[i]} > what the pots he '
+                     f'is eligible for hold beyond his own chips {bound} '
+                     f'(contributions {contrib}, model pots {pots})')
     return v, pots, facts
 
 
